@@ -1,8 +1,10 @@
 #!/bin/bash
-# run every claimed check at one tier; prints one line per property
+# run every claimed check at one tier; prints one line per property: the verdict lines first, then the number of known findings
 tier=${1:-quick}
 cd "$(dirname "$0")"
 for p in $(python3 -c "import json;print(' '.join(c['property_id'] for c in json.load(open('MANIFEST.json'))['checks']))"); do
-  out=$(./check $p $tier 2>&1 | grep -E "^(OK|VIOLATION|KNOWN-FINDING)" | cut -c1-160 | tr '\n' '|')
-  echo "$p: $out"
+  all=$(./check $p $tier 2>&1)
+  out=$(echo "$all" | grep -E "^(OK|VIOLATION)" | cut -c1-160 | tr '\n' '|')
+  kf=$(echo "$all" | grep -c "^KNOWN-FINDING")
+  echo "$p: $out known-findings=$kf"
 done
